@@ -330,51 +330,145 @@ impl NtPairs {
     }
 }
 
+/// scaling histories on one cone object: the last operation is judged
+const NHIST: u64 = 5;
+fn history_of(h: u64) -> &'static str {
+    ["U(a)", "U(b)U(a)", "Id", "U(a)Id", "U(b)IdU(a)"][h as usize]
+}
+
+impl NtPairs {
+    /// after set_identity_scaling every operator is the identity, in every representation
+    fn check_identity<C: Cone<f64> + SymmetricCone<f64>>(&self, cone: &mut C, ctx: &mut Ctx, sparse: Option<(Vec<f64>, Vec<f64>, f64, f64)>) -> CaseResult {
+        let n = self.kind.numel();
+        let mut work = vec![0.0; n];
+        let mut hs_dense = Dense::zeros(n, n);
+        for k in 0..n + 1 {
+            let x: Vec<f64> = if k < n { (0..n).map(|i| if i == k { 1.0 } else { 0.0 }).collect() } else { (0..n).map(|i| 0.3 - 0.7 * i as f64).collect() };
+            for shape in [MatrixShape::N, MatrixShape::T] {
+                let mut y = vec![0.0; n];
+                cone.mul_W(shape, &mut y, &x, 1.0, 0.0);
+                ensure!(relerr(&y, &x) <= 1e-15, "identity-scaling:mul_W", "W x = {:?} for x = {:?}", y, x);
+                let mut y = vec![0.0; n];
+                cone.mul_Winv(shape, &mut y, &x, 1.0, 0.0);
+                ensure!(relerr(&y, &x) <= 1e-15, "identity-scaling:mul_Winv", "Winv x = {:?} for x = {:?}", y, x);
+            }
+            let mut hx = vec![0.0; n];
+            cone.mul_Hs(&mut hx, &x, &mut work);
+            ensure!(relerr(&hx, &x) <= 1e-15, "identity-scaling:mul_Hs", "Hs x = {:?} for x = {:?}", hx, x);
+            if k < n {
+                for i in 0..n {
+                    hs_dense.set(i, k, hx[i]);
+                }
+            }
+            ctx.transitions += 5;
+        }
+        let nb = if cone.Hs_is_diagonal() { n } else { n * (n + 1) / 2 };
+        let mut blk = vec![0.0; nb];
+        cone.get_Hs(&mut blk);
+        let mut from_block = Dense::zeros(n, n);
+        if let Some((u, v, d, eta)) = sparse {
+            for i in 0..n {
+                ensure!((blk[i] - eta * eta * if i == 0 { d } else { 1.0 }).abs() <= 1e-15, "identity-scaling:sparse-D-block", "entry {} = {:e}", i, blk[i]);
+                for j in 0..n {
+                    from_block.set(i, j, eta * eta * ((if i == j { if i == 0 { d } else { 1.0 } } else { 0.0 }) + u[i] * u[j] - v[i] * v[j]));
+                }
+            }
+        } else if cone.Hs_is_diagonal() {
+            for i in 0..n {
+                from_block.set(i, i, blk[i]);
+            }
+        } else {
+            let mut k = 0;
+            for col in 0..n {
+                for row in 0..=col {
+                    from_block.set(row, col, blk[k]);
+                    from_block.set(col, row, blk[k]);
+                    k += 1;
+                }
+            }
+        }
+        for i in 0..n {
+            for j in 0..n {
+                let e = (from_block.at(i, j) - hs_dense.at(i, j)).abs();
+                ensure!(e <= 4e-16, "identity-scaling:get_Hs-block=mul_Hs", "KKT block entry ({},{}) is {:e} but the applied operator has {:e}", i, j, from_block.at(i, j), hs_dense.at(i, j));
+            }
+        }
+        Ok(())
+    }
+
+    fn drive<C: Cone<f64> + SymmetricCone<f64>>(&self, c: &mut C, h: u64, a: (&[f64], &[f64]), b: (&[f64], &[f64]), tol: f64, ctx: &mut Ctx, sparse_of: &dyn Fn(&C) -> Option<(Vec<f64>, Vec<f64>, f64, f64)>) -> CaseResult {
+        let strategy = ScalingStrategy::PrimalDual;
+        let ops: &[u8] = match h {
+            0 => b"a",
+            1 => b"ba",
+            2 => b"i",
+            3 => b"ai",
+            _ => b"bia",
+        };
+        for op in ops {
+            match op {
+                b'a' => ensure!(c.update_scaling(a.0, a.1, 1.0, strategy), "update_scaling-fails-on-interior-point", "s={:?} z={:?}", a.0, a.1),
+                b'b' => ensure!(c.update_scaling(b.0, b.1, 1.0, strategy), "update_scaling-fails-on-interior-point", "s={:?} z={:?}", b.0, b.1),
+                _ => c.set_identity_scaling(),
+            }
+            ctx.transitions += 1;
+        }
+        let sparse = sparse_of(c);
+        if *ops.last().unwrap() == b'i' {
+            self.check_identity(c, ctx, sparse)
+        } else {
+            self.check(c, a.0, a.1, tol, ctx, sparse)
+        }
+    }
+}
+
 impl Space for NtPairs {
     fn name(&self) -> String {
         format!("nt-pairs-{}", self.kind.tag())
     }
     fn size(&self) -> u64 {
-        self.npts() * self.npts()
+        self.npts() * self.npts() * NHIST
     }
     fn describe(&self, id: u64) -> Value {
-        let (s, z, ds, dz, ms, mz) = self.decode(id);
-        json!({"cone": self.kind.tag(), "s": s, "z": z, "boundary_distance": [ds, dz], "magnitude": [ms, mz]})
+        let nn = self.npts() * self.npts();
+        let (s, z, ds, dz, ms, mz) = self.decode(id % nn);
+        json!({"cone": self.kind.tag(), "history": history_of(id / nn), "a": {"s": s, "z": z}, "b": "a with s and z exchanged", "boundary_distance": [ds, dz], "magnitude": [ms, mz]})
     }
     fn bound(&self) -> Value {
-        json!({"directions": 3, "boundary_distances": DELTAS, "magnitudes": MAGS, "pairs": "all (s,z)"})
+        json!({"directions": 3, "boundary_distances": DELTAS, "magnitudes": MAGS, "pairs": "all (s,z)", "histories": "U(a) | U(b)U(a) | Id | U(a)Id | U(b)IdU(a) on one cone object; the state after the last operation is judged"})
     }
     fn run(&self, id: u64, ctx: &mut Ctx) -> CaseResult {
-        let (s, z, ds, dz, _ms, _mz) = self.decode(id);
-        let n = self.kind.numel();
-        let _ = n;
+        let nn = self.npts() * self.npts();
+        let h = id / nn;
+        let (s, z, ds, dz, _ms, _mz) = self.decode(id % nn);
         // error grows with the conditioning of the scaling point: cond(W)^2 ~ 1/(ds*dz)
         let tol = 2e-12 / (ds * dz).sqrt().max(1e-8) / ds.min(dz).sqrt();
-        let strategy = ScalingStrategy::PrimalDual;
-        let _settings = DefaultSettings::<f64>::default();
         ctx.nontrivial += 1;
+        ctx.outcome(history_of(h));
+        let a = (&s[..], &z[..]);
+        let b = (&z[..], &s[..]); // the cones are self-dual: (z,s) is another interior pair
         match &self.kind {
             Kind::NN(d) => {
                 let mut c = NonnegativeCone::<f64>::new(*d);
-                ensure!(c.update_scaling(&s, &z, 1.0, strategy), "update_scaling-fails-on-interior-point", "s={:?} z={:?}", s, z);
-                self.check(&mut c, &s, &z, tol, ctx, None)
+                self.drive(&mut c, h, a, b, tol, ctx, &|_| None)
             }
             Kind::SOC(d) => {
                 let mut c = SecondOrderCone::<f64>::new(*d);
-                ensure!(c.update_scaling(&s, &z, 1.0, strategy), "update_scaling-fails-on-interior-point", "s={:?} z={:?}", s, z);
-                // λ is public for the second-order cone
-                let mut l1 = vec![0.0; *d];
-                c.mul_W(MatrixShape::N, &mut l1, &z, 1.0, 0.0);
-                let e = relerr(&l1, &c.λ);
-                ensure!(e <= tol, "nt-identity:stored-lambda", "relerr {:e}", e);
-                let sparse = c.sparse_data.as_ref().map(|sd| (sd.u.clone(), sd.v.clone(), sd.d, c.η));
-                ensure!(sparse.is_some() == (*d > 4), "sparse-expansion-threshold", "dim {} sparse {}", d, sparse.is_some());
-                self.check(&mut c, &s, &z, tol, ctx, sparse)
+                let d = *d;
+                self.drive(&mut c, h, a, b, tol, ctx, &|c: &SecondOrderCone<f64>| c.sparse_data.as_ref().map(|sd| (sd.u.clone(), sd.v.clone(), sd.d, c.η)))?;
+                ensure!(c.sparse_data.is_some() == (d > 4), "sparse-expansion-threshold", "dim {} sparse {}", d, c.sparse_data.is_some());
+                if h < 2 || h == 4 {
+                    // λ is public for the second-order cone
+                    let mut l1 = vec![0.0; d];
+                    c.mul_W(MatrixShape::N, &mut l1, &z, 1.0, 0.0);
+                    let e = relerr(&l1, &c.λ);
+                    ensure!(e <= tol, "nt-identity:stored-lambda", "relerr {:e}", e);
+                }
+                Ok(())
             }
             Kind::PSD(k) => {
                 let mut c = PSDTriangleCone::<f64>::new(*k);
-                ensure!(c.update_scaling(&s, &z, 1.0, strategy), "update_scaling-fails-on-interior-point", "s={:?} z={:?}", s, z);
-                self.check(&mut c, &s, &z, tol, ctx, None)
+                self.drive(&mut c, h, a, b, tol, ctx, &|_| None)
             }
         }
     }
